@@ -8,6 +8,13 @@ from .. import iban_rules as R
 
 
 def run(ctx, report):
+    # premise of the symbolic model below (it starts from the cleaned text): the object carries clean(raw), clean removes exactly the
+    # whitespace and upper-cases.  A finding here means the statement's "after removing whitespace and upper-casing" is already broken.
+    from .c10 import normalisation_rules
+    try:
+        normalisation_rules(ctx, report, "R01-P0")
+    except AnalysisError as e:
+        report.notes.append(f"normalisation premise not decided: {e}")
     m = IbanModel(ctx, with_validate=False)
     report.explanation = (
         "Every path through IBAN.__init__ and is_valid is enumerated symbolically (fork over the 126 table keys, all lengths); each path "
